@@ -689,6 +689,10 @@ val cells_of_rows :
 
 val cellbuffer_of_text : z list -> (z list * z list) list -> cellbuffer res
 
+val uncrlf_aux : bool -> z list -> z list
+
+val uncrlf : z list -> z list
+
 val cellbuffer_from : z list -> cellbuffer res
 
 val cells_max : (cell * z) list -> cell
